@@ -36,4 +36,8 @@ def run(ctx):
     W.clause_history_window(R, F)
     W.clause_table_reorg_visits_all(R, F)
     W.clause_blockdb_reorg(R, F)
+    # a rollback needs the histories: each commit persists the history row of every changed key, and a key's persisted
+    # history is loaded (never replaced by a fresh one) before it is changed again
+    T.clause_commit_per_key(R, F)
+    T.clause_retrieve_cache(R, F)
     return R
